@@ -89,6 +89,46 @@ DESCR = {
  "C19-D": ("empty-path check moved before the ';' cut", "'unix:;...' (panic)"),
  "C20-C": ("FDNAMES consulted whenever it is set", "LISTEN_FDS=1 with LISTEN_FDNAMES set to something else"),
  "C20-D": ("names split with FieldsFunc (empty entries vanish)", "a names list with an empty entry"),
+ "C01-E": ("oneway guard becomes 'oneway && !more'", "a call flagged both oneway and more"),
+ "C01-F": ("a package-level pool of 64 slots taken around each connection's read loop", "more than 64 connections open at the same time (idle ones count)"),
+ "C02-E": ("the buffered reader is Reset after a frame above 1 MiB", "a frame above 1 MiB with another message right behind it in the same segment"),
+ "C02-F": ("Listen's idle timeout also applied to every per-connection read", "a service with an idle timeout and a client pause longer than it, inside or between frames"),
+ "C03-E": ("a 'no reply pending' guard kept on the Connection, cleared by Send and set by the last reply", "two calls in flight on one connection (Send, Send, receive, receive)"),
+ "C03-F": ("continues-replies batched until a final reply or 4 KiB", "a handler that sends a continues-reply and then waits for an event"),
+ "C04-E": ("method string trimmed with TrimSpace", "method strings with leading or trailing white space"),
+ "C04-F": ("upgrade calls to an unknown interface return an error instead of replying", "upgrade flag + unregistered interface"),
+ "C05-E": ("type names looked up, lower-cased, in the builtin table first", "a user type named String, Int, Bool, Float or Object"),
+ "C05-F": ("duplicate-member map keyed by the lower-cased name", "two members whose names differ only in case"),
+ "C06-E": ("a trailing ',' accepted when a newline follows before ')'", "',' + newline + ')' in any list"),
+ "C06-F": ("unicode white space (NBSP, U+2028, U+3000, ...) skipped between tokens", "such a rune between tokens"),
+ "C07-E": ("an Is<Error>() predicate emitted for every error", "a member named Is<ErrorName>"),
+ "C07-F": ("a '// source: <path>' header line emitted", "generating the same description from another directory / path spelling"),
+ "C08-E": ("'var out' of the Send stub declared once outside the receive closure", "a more-sequence whose later replies omit optionals / carry maps and slices"),
+ "C08-F": ("alias-of-object detection through a map filled in declaration order", "a type name that refers forward to an alias of object"),
+ "C09-E": ("field lists pre-allocated with capacity 64 and stored by index", "a struct or enum list with more than 64 entries (panic)"),
+ "C09-F": ("string panic from a depth guard swallowed by New's recover", "more than 10000 nested types: neither tree nor error"),
+ "C10-E": ("64 KiB reader with ReadSlice", "a well-formed call frame longer than 65536 bytes"),
+ "C10-F": ("a leading UTF-8 BOM stripped from frames", "EF BB BF in front of a call object"),
+ "C11-E": ("receive tests continues before error", "an error frame that also carries continues:true (reported as success)"),
+ "C11-F": ("reply decoded with a streaming Decoder", "a frame with trailing junk after the JSON value"),
+ "C12-E": ("fast path for nil parameters builds the frame with strconv.Quote", "nil parameters and a name containing a control character"),
+ "C12-F": ("'r <= 0' becomes 'r < 0' in ReplyError", "names with an empty interface part ('.Broken')"),
+ "C13-F": ("GetInfo decodes straight into the caller's pointers", "empty identity strings (omitted on the wire) with reused out variables"),
+ "C13-G": ("duplicate check tests descriptions[name] != \"\"", "an interface with an empty description registered twice"),
+ "C14-E": ("second Bind refused only for the identical address", "Bind of a different address during serving"),
+ "C14-F": ("Shutdown leaves the listener open while connections are active; the last one closes it", "a connection arriving after Shutdown returned while earlier ones drain"),
+ "C15-E": ("teardown resets conncounter to 0 (before the handlers have finished)", "a period ended by Shutdown with open connections, then a timed period"),
+ "C15-F": ("TCP listener wrapped in a struct that hides SetDeadline", "idle timeout on the tcp transport"),
+ "C16-E": ("Shutdown also stores listener = nil", "Shutdown concurrent with the accept loop of a service started with a timeout (refreshTimeout reads the field)"),
+ "C16-F": ("an eof flag written by Read and read by Write without synchronisation", "a handler reading and writing its connection from two goroutines while the peer half-closes"),
+ "C17-E": ("forced past deadline skipped when the context has its own deadline", "explicit cancel of a context that also has a distant deadline"),
+ "C17-F": ("result channels made unbuffered", "cancel followed at once by Close while the operation is blocked (goroutine leak)"),
+ "C18-E": ("one result channel shared by Read and Write", "a raw Read pending while a Write on the same connection completes (duplex use)"),
+ "C18-F": ("reader replaced by a larger one after a frame above 4096 bytes", "an upgrade frame above 4096 bytes with payload in the same segment"),
+ "C19-E": ("protocol lower-cased on the service side", "'UNIX:' / 'Tcp:' addresses (bound, but the client cannot reach them)"),
+ "C19-F": ("client cuts the parameter tail at the LAST ';'", "two or more ';' in the address"),
+ "C20-E": ("Atoi replaced by fmt.Sscan", "LISTEN_FDS / LISTEN_PID with a numeric prefix ('1x', '<pid>abc')"),
+ "C20-F": ("stale-socket removal moved in front of activationListener()", "activation in effect and the address argument names an existing path"),
 }
 
 conf = {}
